@@ -11,6 +11,13 @@ pub mod vreplay_support {
             core::task::Poll::Pending => panic!("replay: future is pending"),
         }
     }
+    /// a real runtime (timers, spawned tasks) for the harnesses that run whole loops
+    pub fn rt_block_on<F: core::future::Future>(f: F) -> F::Output {
+        thread_local! {
+            static RT: tokio::runtime::Runtime = tokio::runtime::Builder::new_current_thread().enable_time().build().unwrap();
+        }
+        RT.with(|rt| rt.block_on(f))
+    }
     pub trait FromSlots<K, V>: Sized {
         fn from_slots<const N: usize>(slots: [Option<(K, V)>; N]) -> Self;
     }
@@ -45,6 +52,7 @@ macro_rules! wb_harnesses {
         include!("/verif/kani/wb/src/h/c03.rs");
         include!("/verif/kani/wb/src/h/c08.rs");
         include!("/verif/kani/wb/src/h/c07.rs");
+        include!("/verif/kani/wb/src/h/c16.rs");
         include!("/verif/kani/wb/src/h/probe.rs");
     };
 }
